@@ -5,7 +5,6 @@ use anyhow::Context as _;
 use tracing::Instrument as _;
 use zksync_concurrency::{
     ctx::{self, channel},
-    error::Wrap as _,
     limiter, scope, sync,
 };
 use zksync_consensus_engine::EngineManager;
@@ -214,12 +213,26 @@ impl Runner {
             let accept_limiter = limiter::Limiter::new(ctx, self.net.gossip.cfg.tcp_accept_rate);
             loop {
                 accept_limiter.acquire(ctx, 1).await?;
-                let stream = metrics::MeteredStream::accept(ctx, &mut listener)
-                    .await
-                    .wrap("accept()")?;
+                let stream = match metrics::MeteredStream::accept(ctx, &mut listener).await {
+                    Ok(stream) => stream,
+                    Err(ctx::Error::Canceled(err)) => return Err(err.into()),
+                    // Accepting a single connection may fail (for example the peer has already
+                    // reset it, in which case `peer_addr()` fails). It affects only that
+                    // connection, so it should not stop the whole network component.
+                    Err(ctx::Error::Internal(err)) => {
+                        tracing::debug!("accept(): {err:#}");
+                        continue;
+                    }
+                };
                 s.spawn(async {
-                    // May fail if the socket got closed.
-                    let addr = stream.peer_addr().context("peer_addr()")?;
+                    // May fail if the socket got closed: then there is nothing to serve.
+                    let addr = match stream.peer_addr() {
+                        Ok(addr) => addr,
+                        Err(err) => {
+                            tracing::debug!("peer_addr(): {err:#}");
+                            return Ok(());
+                        }
+                    };
                     let res = async {
                         tracing::trace!("new connection");
                         let (stream, endpoint) = preface::accept(ctx, stream)
